@@ -502,8 +502,9 @@ impl crate::peer::PeerSink for IdSink {
 fn resume_n<const N: usize>() {
     let p = any_pushed();
     let cap: u64 = kani::any();
+    // (the control may already hold a staged resume the producer has not consumed:
+    // a flapping link sends a second resume before the first is picked up)
     let pre = any_pre();
-    kani::assume(pre.pending.is_none());
     let tc = mk_with_ring(&pre, ReplayRing::new(cap));
     let mut k = 0;
     while k < N {
@@ -561,7 +562,7 @@ fn resume_n<const N: usize>() {
             }
             // the staged resume is delivered exactly once
             match tc.wait_for_reconnect(Duration::from_secs(0)) {
-                ReconnectOutcome::ResumeReady(pr) => assert!(pr.resume_at_offset == off),
+                ReconnectOutcome::ResumeReady(pr) => assert!(pr.resume_at_offset == off, "the producer is told to replay from another offset than the accepted one"),
                 _ => panic!("accepted resume was not delivered to the producer"),
             }
             match tc.wait_for_reconnect(Duration::from_secs(0)) {
@@ -569,6 +570,7 @@ fn resume_n<const N: usize>() {
                 _ => panic!("resume delivered twice"),
             }
             kani::cover!(tail.len() == N);
+            kani::cover!(pre.pending.is_some());
             kani::cover!(tail.len() == 0);
             std::mem::forget(tail);
         }
@@ -585,9 +587,11 @@ fn resume_n<const N: usize>() {
             assert!(tc.peer().is_none(), "refused resume replaced the producer's peer");
             assert!(tc.offsets() == (pre.sent, pre.acked));
             match tc.wait_for_reconnect(Duration::from_secs(0)) {
-                ReconnectOutcome::ResumeReady(_) => panic!("refused resume was staged"),
+                ReconnectOutcome::ResumeReady(pr) => {
+                    assert!(!pre.cancelled && pre.pending == Some(pr.resume_at_offset), "refused resume was staged")
+                }
                 ReconnectOutcome::Cancelled(_) => assert!(pre.cancelled),
-                ReconnectOutcome::Timeout => assert!(!pre.cancelled),
+                ReconnectOutcome::Timeout => assert!(!pre.cancelled && pre.pending.is_none()),
             }
             kani::cover!(!pre.cancelled && f == pre.file);
         }
